@@ -37,9 +37,9 @@ HOST_PAIRS = {"stmt": [["ModuleDeclarationAnsi", "host_m"], ["InitialConstruct",
 DEFAULT_HOST_PAIRS = [["ModuleDeclarationAnsi", "host_m"]]
 
 
-def build_case(cid, start, budget, choices):
+def build_case(cid, start, budget, choices, sep=" "):
     toks = svgen.replay(start, budget, choices)
-    text, offs = svgen.render(toks)
+    text, offs = svgen.render(toks, sep)
     pre, post = HOSTS.get(start, ("", ""))
     full = pre + text.rstrip("\n") + post + "\n"
     shift = len(pre.encode())
@@ -137,7 +137,16 @@ def run(tier, seed):
         budgets[st] = int(cfg.split("Budget = ")[1].split()[0])
     cases = []
     for i, (st, b, ch, note) in enumerate(ders):
-        c = build_case(str(i), st, b if b is not None else budgets[st], ch)
+        # layout: one blank between tokens; the sweep's second and third context and a third of the seeded derivations use a
+        # tab / a newline / CRLF instead (what ends an escaped identifier, a number, a keyword)
+        sep = " "
+        if note.startswith("sweep") and note.endswith("/1"):
+            sep = "\t"
+        elif note.startswith("sweep") and note.endswith("/2"):
+            sep = "\n"
+        elif note == "seeded" and i % 3 == 0:
+            sep = ["\t", "\n", "\r\n", "  "][(i // 3) % 4]
+        c = build_case(str(i), st, b if b is not None else budgets[st], ch, sep)
         c["note"] = note
         cases.append(c)
     vlib.log("C02: %d sentences (%d exhaustive, %d sweep, rest seeded)" % (len(cases), nexh, len(sweep)))
